@@ -289,9 +289,23 @@ func (vc *VC) heap(st *State, name, sort string) string {
 }
 
 func innerSort(arraySort string) string {
-	// "(Array Int X)" -> X
-	s := strings.TrimPrefix(arraySort, "(Array Int ")
-	return strings.TrimSuffix(s, ")")
+	// "(Array K X)" -> X   (K may itself be a parenthesised sort)
+	s := strings.TrimPrefix(arraySort, "(Array ")
+	s = strings.TrimSuffix(s, ")")
+	depth := 0
+	for i := 0; i < len(s); i++ {
+		switch s[i] {
+		case '(':
+			depth++
+		case ')':
+			depth--
+		case ' ':
+			if depth == 0 {
+				return s[i+1:]
+			}
+		}
+	}
+	return s
 }
 
 func (vc *VC) setHeap(st *State, name, sort, term string) {
